@@ -50,7 +50,8 @@ def judge(case, drv):
     if a['n'] != b['n'] or a['ci'] != b['ci']:
         raise Violation('slot-count-or-char-info-depends-on-font', case, '')
     scale = case['ppm'] / upem
-    extent = max([1.0, abs(fl(a['adv'][0]))] + [abs(fl(s['o'][0])) for s in a['slots']] + [abs(fl(s['o'][1])) for s in a['slots']])
+    # the largest design-unit magnitude that is compared (origins, advances, segment advance): single-precision rounding is relative to it
+    extent = max([1.0, abs(fl(a['adv'][0])), abs(fl(a['adv'][1]))] + [abs(fl(s[k][j])) for s in a['slots'] for k in ('o', 'a', 'a0') for j in (0, 1)])
     tol = 1e-5 * extent * scale
     def close(x, y, what, i):
         if not (abs(y - x * scale) <= tol):
